@@ -34,7 +34,7 @@
 //! the CPU budget of the job, the parent - which still holds the plan - knows from a shared counter
 //! which job was running, records Abort / Timeout for exactly that job and forks again behind it.
 //! After two timeouts / three deaths on one font the rest of the font's jobs is recorded as Skipped,
-//! after MAX_DEATHS_PER_SHARD the rest of the shard.  `plan_*` counters are computed from the plan
+//! after MAX_TIMEOUTS_PER_SHARD timeouts / MAX_ABORTS_PER_SHARD deaths the rest of the shard.  `plan_*` counters are computed from the plan
 //! (inputs), never from what allsorts returned.
 #[path = "c02_shape/enc_gpos.rs"]
 mod enc_gpos;
@@ -73,8 +73,10 @@ const EXIT_TIMEOUT: i32 = 75;
 /// after this many timeouts / process deaths on one (font, corruption) the rest of its jobs is skipped
 const GROUP_TIMEOUTS: u32 = 2;
 const GROUP_DEATHS: u32 = 3;
-/// after this many timeouts + deaths the rest of a shard is skipped
-const MAX_DEATHS_PER_SHARD: u32 = 60;
+/// after this many timeouts (each costs its CPU budget) / process deaths (each costs a fork) the rest
+/// of a shard is skipped
+const MAX_TIMEOUTS_PER_SHARD: u64 = 20;
+const MAX_ABORTS_PER_SHARD: u64 = 1000;
 
 // ---- deterministic hashing ------------------------------------------------------------------
 
@@ -1380,7 +1382,7 @@ fn run_shard(plan: &Plan, seed: u64, trace: &str, from: usize, to: usize) {
         };
         job_args(&plan.fonts, &plan.cases, j, k, wf, 0, &cdesc)
     };
-    let (mut deaths, mut aborts, mut timeouts, mut abandoned) = (0u32, 0u64, 0u64, 0u64);
+    let (mut aborts, mut timeouts, mut abandoned) = (0u64, 0u64, 0u64);
     let mut group: (usize, u32, u32) = (usize::MAX, 0, 0); // (a job of the group, timeouts, deaths)
     while (progress.get() as usize) < to {
         let start = progress.get() as usize;
@@ -1402,7 +1404,6 @@ fn run_shard(plan: &Plan, seed: u64, trace: &str, from: usize, to: usize) {
         if exited && code == 0 {
             break;
         }
-        deaths += 1;
         let timed_out = exited && code == EXIT_TIMEOUT;
         let bad;
         if timed_out {
@@ -1429,7 +1430,7 @@ fn run_shard(plan: &Plan, seed: u64, trace: &str, from: usize, to: usize) {
         } else {
             group.2 += 1;
         }
-        let give_up_shard = deaths >= MAX_DEATHS_PER_SHARD;
+        let give_up_shard = timeouts >= MAX_TIMEOUTS_PER_SHARD || aborts >= MAX_ABORTS_PER_SHARD;
         if group.1 >= GROUP_TIMEOUTS || group.2 >= GROUP_DEATHS || give_up_shard {
             let why = if give_up_shard { "not executed: too many timeouts / process deaths in this shard" } else { "not executed: repeated timeouts / process deaths on this font" };
             let mut k = progress.get() as usize;
